@@ -262,8 +262,12 @@ def oracle_buffer(case, raw):
             return ("apply_search did not move to the position _search found (or moved although nothing was found)",
                     dict(tag, family="apply"))
         g = raw.get(("gsp", d, icp, c))
-        if g is None or g[0] != (cur if r is None else r[1]) or (g[1], g[2]) != (wi, cur):
-            return ("get_search_position disagrees with _search or moved the buffer", dict(tag, family="gsp"))
+        # the landing cursor only when the landing line is the current one: a match in
+        # another working line has no position in the current text
+        want_g = r[1] if (r is not None and r[0] == wi) else cur
+        if g is None or g[0] != want_g or (g[1], g[2]) != (wi, cur):
+            return ("get_search_position is not the landing cursor in the current line (or the current cursor when the match "
+                    "is in another line / absent), or it moved the buffer", dict(tag, family="gsp"))
     for d in (0, 1):
         r = raw[(d, 1, 1)]
         if isinstance(raw[("dfs", d)], str):
